@@ -53,6 +53,9 @@ def belongs(v, kind):
 	"""does non-None v belong to the reported kind (generous: isinstance counts)"""
 	if kind is OBJECT:
 		return True
+	if kind is date and isinstance(v, datetime):
+		# date -> datetime is the documented widening; a datetime (or an instance of a datetime subclass) in a <date> column is the reverse
+		return False
 	try:
 		if isinstance(v, kind):
 			return True
